@@ -38,14 +38,32 @@ Definition outJ (o : lres J) : J := match o with LOk r => r | LErr e => JErr e e
 (* (decorators applied innermost first, signature, raises, call) ->
    [chain of the stack; chain after applying the outermost decorator again; chain after applying the innermost
     decorator again on top; what the stack returns; what f returns; specification forwarded] *)
-Definition run_stack (x : list tag * sig Z * bool * call Z * J) : J :=
-  let '(ts, s, raises, c, fallback) := x in      (* fallback: the value of the try_value variant in the stack (None, 0, NaN, True, False, []) *)
+(* argument codes 50..59 stand for pandas objects, code + 10 for their numpy values *)
+Definition is_pdz (v : Z) : bool := (50 <=? v) && (v <? 60).
+Definition to_npz (v : Z) : Z := if is_pdz v then v + 10 else v.
+(* pd2np(exc = exc).wrapped: the first argument (positional, else by the first parameter's name, else its default) decides *)
+Definition pdcall_z (exc : list string) (s : sig Z) (c : call Z) : call Z :=
+  let first := match fst c with
+               | a :: _ => Some a
+               | [] => match pos s with
+                       | [] => None
+                       | p :: _ => match aget p (snd c) with Some v => Some v | None => aget p (defaults_of s) end
+                       end
+               end in
+  match first with
+  | Some v => if is_pdz v
+              then (map to_npz (fst c), map (fun kv => (fst kv, if inl (fst kv) exc then snd kv else to_npz (snd kv))) (snd c))
+              else c
+  | None => c
+  end.
+Definition run_stack (x : list tag * sig Z * bool * call Z * J * list string) : J :=
+  let '(ts, s, raises, c, fallback, exc) := x in      (* fallback: the value of the try_value variant in the stack (None, 0, NaN, True, False, []) *)
   let chain := wraps (rev ts) [] in
   let f := base_fn s raises in
   JL [chainJ chain;
       chainJ (match chain with t :: _ => wrap t chain | [] => [] end);
       chainJ (match ts with t :: _ => wrap t chain | [] => [] end);
-      outJ (call_stack fallback JZ s chain f c);
+      outJ (call_stack fallback JZ (pdcall_z exc) s chain f c);
       outJ (f c);
       JB true].
 
